@@ -40,6 +40,10 @@ pub struct Scenario {
     /// (a short-lived thread per drop, joined before the next step).
     #[serde(default, skip_serializing_if = "std::ops::Not::not")]
     pub xdrop: bool,
+    /// `build()` runs on its own thread and is given up after 30 s (inputs on which defective path / rank
+    /// computations take exponential time).
+    #[serde(default, skip_serializing_if = "std::ops::Not::not")]
+    pub watchdog: bool,
 }
 
 #[derive(Serialize, Deserialize, Clone, Debug, PartialEq)]
@@ -47,6 +51,9 @@ pub struct Scenario {
 pub enum BCall {
     Edge { kind: String, a: usize, b: usize },
     Edges { kind: String, pairs: Vec<[usize; 2]> },
+    /// `add_fn` of the next function HERE, between edge calls. With k such entries the first n-k functions are
+    /// added up front and the others where their entry stands (ids stay 1..n in order).
+    Fn,
 }
 
 #[derive(Serialize, Deserialize, Clone, Debug)]
